@@ -589,7 +589,7 @@ static void report(const DataSet& d, const std::vector<size_t>* sel, const Opt& 
             form[key] = f;
         } else f = form[key];
         if (f == 1) { key += AFTER; spec = spec2; detail += " | not reproduced by this file alone in a fresh process; reproduced after the " + std::to_string(last - first) + " files handled before it"; }
-        if (f == 2) { key = "not-reproducible-in-a-fresh-process/" + key; detail += " | neither this file alone nor the files handled before it reproduce the failure in a fresh process"; }
+        if (f == 2) detail += " | NOT reproduced in a fresh process, neither by this file alone nor after the files handled before it (scheduling-dependent?)";
     }
     V.report(key, detail, spec);
 }
@@ -1135,9 +1135,9 @@ static void replay(const Args& a, const std::string& spec) {
     g_in_replay = true;
     benum::run_isolated(one, 0, 1,
         [&](uint64_t) {
-            // a spec with earlier files: the state the library keeps may sit in one of several pool threads, so the chain is
-            // repeated until the failure shows (bounded); without earlier files the case is run once
-            const int attempts = after.empty() ? 1 : 25;
+            // The case is repeated a few times (a deterministic failure shows in the first round; one that depends on which pool
+            // thread handles a block may need more). With earlier files in the spec the whole chain is repeated.
+            const int attempts = after.empty() ? 6 : 25;
             std::set<std::string> seen;
             for (int k = 0; k < attempts; ++k) {
                 if (!after.empty()) for (const auto& h : split_str(after, '|')) {      // the files this process had handled before
@@ -1146,9 +1146,11 @@ static void replay(const Args& a, const std::string& spec) {
                 }
                 DataSet d = load_case(name, sel);
                 Outcome r = cycle(d, o);
-                if (r.outside_domain || r.kind == Outcome::ok) continue;
+                if (r.outside_domain) break;
+                if (r.kind == Outcome::ok) continue;
                 const std::string key = outcome_key(d, o, r) + (after.empty() ? "" : AFTER);
                 if (seen.insert(key).second) V.report(key, "options: " + opt_human(o) + " | data set " + name + " objects " + sel + " | " + r.detail, spec);
+                if (after.empty()) break;
             }
         },
         [&](uint64_t, const std::string& what, const std::string& err) { on_child_death(name, o, what, err); }, iso);
